@@ -1,10 +1,737 @@
 /-
-  Model module `Cli` (driver op `cli`). Import-free apart from RsjModel.* modules.
+  Model of `rsjsonnet/src/main.rs` (`main_inner`, `value_to_repr`,
+  `get_opt_val`, the `ext_*_to_thunk` helpers) and of the argument value
+  parsers of `rsjsonnet/src/cli.rs` (`VarOptVal`, `VarFile`).
+
+  `mainInner : Args → World → Result` follows `main_inner` statement by
+  statement.  Everything `main_inner` delegates to the library or to the
+  operating system is a field of `World` (an abstract, pure stage result):
+  reading stdin / the environment / files, loading (lex + parse + analyse),
+  evaluation, manifestation of one value, writing a file, writing and
+  flushing stdout.  A failed write is assumed to deliver nothing (true for
+  `/dev/full`, a closed pipe, a missing directory; a disk that fills up in
+  the middle of a write is outside the model).
+
+  clap's own parsing (unknown flags, missing `<filename>`) happens before
+  `main_inner` looks at anything and exits 2; the only usage error decided
+  inside `main_inner` is `-S` together with `-y`, and the only argument-value
+  parser that can reject is `VarFile` (no `=`): both are modelled.
 -/
 import RsjModel.Util
+import RsjModel.Import
 namespace Rsj.Cli
+open Rsj.Import (pathJoin)
 
-/-- `cli <args...>` : one canonical answer line, or `none` for a malformed request. -/
-def handle (_args : List String) : Option String := none
+/-! ## cli.rs: `var[=val]` and `var=file` -/
+
+structure VarOptVal where
+  var : String
+  val : Option String
+deriving Repr, DecidableEq
+
+structure VarFile where
+  var : String
+  file : String
+deriving Repr, DecidableEq
+
+/-- `str::split_once('=')` on characters. -/
+def splitOnceEq : List Char → Option (List Char × List Char)
+  | [] => none
+  | c :: cs =>
+    if c = '=' then some ([], cs)
+    else
+      match splitOnceEq cs with
+      | some (a, b) => some (c :: a, b)
+      | none => none
+
+/-- `impl From<&str> for VarOptVal` -/
+def parseVarOptVal (s : String) : VarOptVal :=
+  match splitOnceEq s.toList with
+  | some (k, v) => { var := String.ofList k, val := some (String.ofList v) }
+  | none => { var := s, val := none }
+
+/-- `impl FromStr for VarFile` (`none` = "argument not in form 'var=file'", a usage error). -/
+def parseVarFile (s : String) : Option VarFile :=
+  match splitOnceEq s.toList with
+  | some (k, v) => some { var := String.ofList k, file := String.ofList v }
+  | none => none
+
+/-! ## Arguments (`cli::Cli`) -/
+
+inductive Input where
+  /-- `-e <code>` -/
+  | exec (code : String)
+  /-- `-` -/
+  | stdin
+  | file (path : String)
+deriving Repr, DecidableEq
+
+/-- `-J`, `-s`, `-t` are handed to the session and do not influence the control
+    flow of `main_inner`; they are not part of the model's arguments. -/
+structure Args where
+  input : Input
+  string : Bool := false
+  yamlStream : Bool := false
+  noTrailingNewline : Bool := false
+  multi : Option String := none
+  output : Option String := none
+  extStr : List VarOptVal := []
+  extStrFile : List VarFile := []
+  extCode : List VarOptVal := []
+  extCodeFile : List VarFile := []
+  tlaStr : List VarOptVal := []
+  tlaStrFile : List VarFile := []
+  tlaCode : List VarOptVal := []
+  tlaCodeFile : List VarFile := []
+deriving Repr
+
+/-! ## Values and the world -/
+
+/-- What a thunk handed to the program was made from. Code thunks are *loaded*
+    eagerly but evaluated only when the program forces them. -/
+inductive ThunkSrc where
+  /-- `value_to_thunk(Value::string(s))` -/
+  | str (s : String)
+  /-- `load_virt_file(repr_path, code)` -/
+  | virt (reprPath : String) (code : String)
+  /-- `load_real_file(path)` -/
+  | real (path : String)
+deriving Repr, DecidableEq
+
+/-- A fully evaluated value as far as `main_inner` inspects it. -/
+inductive Value where
+  /-- null / boolean / number (opaque) -/
+  | atom (n : Nat)
+  | str (s : String)
+  | arr (items : List Value)
+  /-- visible fields in `get_fields_order` order (`Value::to_object`) -/
+  | obj (fields : List (String × Value))
+  /-- a function: identity and `(parameter name, has default)` -/
+  | func (id : Nat) (params : List (String × Bool))
+deriving Repr
+
+inductive EnvRes where
+  | undefined | notUnicode | val (s : String)
+deriving Repr, DecidableEq
+
+inductive FileRes where
+  | readFail | notUtf8 | ok (s : String)
+deriving Repr, DecidableEq
+
+structure World where
+  /-- `stdin().read_to_end` (`none` = error) -/
+  stdin : Option String
+  /-- `std::env::var_os` + `into_string` -/
+  env : String → EnvRes
+  /-- `std::fs::read` + `String::from_utf8` -/
+  readStrFile : String → FileRes
+  /-- `Session::load_virt_file(repr_path, data).is_some()` -/
+  loadVirt : String → String → Bool
+  /-- `Session::load_real_file(path).is_some()` -/
+  loadReal : String → Bool
+  /-- `Session::eval_value(root_thunk)` with the registered external variables -/
+  evalRoot : ThunkSrc → List (String × ThunkSrc) → Option Value
+  /-- evaluation of a function's body once the top-level arguments are bound -/
+  evalBody : Value → List (String × ThunkSrc) → List (String × ThunkSrc) → Option Value
+  /-- `Session::manifest_json(value, true)` -/
+  manifest : Value → Option String
+  /-- `std::fs::write(path, data).is_ok()` -/
+  writeFile : String → String → Bool
+  /-- `stdout.write_all(data).is_ok()` -/
+  stdoutWrite : String → Bool
+  /-- `stdout.flush().is_ok()` -/
+  stdoutFlush : Bool
+
+structure Result where
+  exit : Nat
+  stdout : String
+  /-- `main_inner` itself or a stage printed a message -/
+  stderrNonEmpty : Bool
+  /-- files written by the `-m` loop, in order -/
+  files : List (String × String)
+  /-- the file written for `-o` -/
+  outFile : Option (String × String)
+deriving Repr, DecidableEq
+
+/-- `Err(RunError::Generic)` after a message on stderr; `files` were already written by `-m`. -/
+def fail (files : List (String × String)) : Result :=
+  { exit := 1, stdout := "", stderrNonEmpty := true, files := files, outFile := none }
+
+/-! ## The helpers of main.rs -/
+
+/-- `get_opt_val` -/
+def getOptVal (w : World) (a : VarOptVal) : Option String :=
+  match a.val with
+  | some v => some v
+  | none =>
+    match w.env a.var with
+    | .val v => some v
+    | .notUnicode => none
+    | .undefined => none
+
+/-- `ext_str_to_thunk` -/
+def strThunk (w : World) (a : VarOptVal) : Option ThunkSrc :=
+  match getOptVal w a with
+  | some v => some (.str v)
+  | none => none
+
+/-- `ext_str_file_to_thunk` -/
+def strFileThunk (w : World) (a : VarFile) : Option ThunkSrc :=
+  match w.readStrFile a.file with
+  | .ok s => some (.str s)
+  | .readFail => none
+  | .notUtf8 => none
+
+/-- `ext_code_to_thunk(session, prefix, arg)` -/
+def codeThunk (w : World) (pfx : String) (a : VarOptVal) : Option ThunkSrc :=
+  match getOptVal w a with
+  | none => none
+  | some code =>
+    let virtPath := "<" ++ pfx ++ ":" ++ a.var ++ ">"
+    if w.loadVirt virtPath code then some (.virt virtPath code) else none
+
+/-- `ext_code_file_to_thunk` -/
+def codeFileThunk (w : World) (a : VarFile) : Option ThunkSrc :=
+  if w.loadReal a.file then some (.real a.file) else none
+
+/-- The four `--ext-*` loops in the order main.rs runs them: name and the
+    result of the thunk constructor. -/
+def extItems (args : Args) (w : World) : List (String × Option ThunkSrc) :=
+  args.extStr.map (fun a => (a.var, strThunk w a)) ++
+  args.extStrFile.map (fun a => (a.var, strFileThunk w a)) ++
+  args.extCode.map (fun a => (a.var, codeThunk w "ext" a)) ++
+  args.extCodeFile.map (fun a => (a.var, codeFileThunk w a))
+
+def tlaItems (args : Args) (w : World) : List (String × Option ThunkSrc) :=
+  args.tlaStr.map (fun a => (a.var, strThunk w a)) ++
+  args.tlaStrFile.map (fun a => (a.var, strFileThunk w a)) ++
+  args.tlaCode.map (fun a => (a.var, codeThunk w "tla" a)) ++
+  args.tlaCodeFile.map (fun a => (a.var, codeFileThunk w a))
+
+def hasName (env : List (String × ThunkSrc)) (v : String) : Bool := env.any (fun e => e.1 = v)
+
+/-- One `--ext-*` loop body after another: a repeated name is fatal, then the
+    thunk constructor may fail. `none` = `return Err(RunError::Generic)`. -/
+def extLoop : List (String × Option ThunkSrc) → List (String × ThunkSrc) → Option (List (String × ThunkSrc))
+  | [], env => some env
+  | (v, t) :: rest, env =>
+    if hasName env v then none
+    else
+      match t with
+      | none => none
+      | some th => extLoop rest (env ++ [(v, th)])
+
+/-- The `--tla-*` loops: a repeated name only prints a message (second component). -/
+def tlaLoop : List (String × Option ThunkSrc) → List (String × ThunkSrc) → Bool →
+    Option (List (String × ThunkSrc) × Bool)
+  | [], env, d => some (env, d)
+  | (v, t) :: rest, env, d =>
+    match t with
+    | none => none
+    | some th => tlaLoop rest (env ++ [(v, th)]) (d || hasName env v)
+
+/-! ### Binding top-level arguments (`eval_call(func, &[], &tla)`, rule of C02) -/
+
+inductive BindErr where
+  | unknownParam (n : String)
+  | repeatedParam (n : String)
+  | paramNotBound (n : String)
+deriving Repr, DecidableEq
+
+def hasParam (params : List (String × Bool)) (n : String) : Bool := params.any (fun p => p.1 = n)
+
+/-- The loop over the named arguments. -/
+def bindNamed (params : List (String × Bool)) : List String → List String → Except BindErr (List String)
+  | [], bound => .ok bound
+  | n :: rest, bound =>
+    if !hasParam params n then .error (.unknownParam n)
+    else if bound.contains n then .error (.repeatedParam n)
+    else bindNamed params rest (bound ++ [n])
+
+/-- First parameter that is neither bound nor has a default. -/
+def firstUnbound (bound : List String) : List (String × Bool) → Option String
+  | [] => none
+  | (n, hasDefault) :: rest =>
+    if !hasDefault && !bound.contains n then some n else firstUnbound bound rest
+
+/-- No positional arguments, the TLA names as named arguments. -/
+def bind (params : List (String × Bool)) (names : List String) : Except BindErr Unit :=
+  match bindNamed params names [] with
+  | .error e => .error e
+  | .ok bound =>
+    match firstUnbound bound params with
+    | some n => .error (.paramNotBound n)
+    | none => .ok ()
+
+/-- The `if root_value.is_function() { .. } else if !tla.is_empty() { .. }` block. -/
+def callStage (w : World) (ext tla : List (String × ThunkSrc)) (v : Value) : Option Value :=
+  match v with
+  | .func _ params =>
+    match bind params (tla.map (·.1)) with
+    | .ok () => w.evalBody v ext tla
+    | .error _ => none
+  | _ => if tla.isEmpty then some v else none
+
+/-! ### `value_to_repr` -/
+
+/-- The loop over the array items of `-y` (first failing item aborts). -/
+def manifestItems (w : World) : List Value → Option (List String)
+  | [] => some []
+  | v :: rest =>
+    match w.manifest v with
+    | none => none
+    | some s =>
+      match manifestItems w rest with
+      | none => none
+      | some ss => some (s :: ss)
+
+def yamlBody : List String → String → String
+  | [], acc => acc
+  | m :: rest, acc => yamlBody rest (acc ++ "---\n" ++ m ++ "\n")
+
+def yamlText (ntn : Bool) (ms : List String) : String :=
+  if ms.isEmpty then "" else yamlBody ms "" ++ (if ntn then "..." else "...\n")
+
+def valueToRepr (args : Args) (w : World) (v : Value) : Option String :=
+  if args.string then
+    match v with
+    | .str s => some (if args.noTrailingNewline then s else s ++ "\n")
+    | _ => none
+  else if args.yamlStream then
+    match v with
+    | .arr items =>
+      match manifestItems w items with
+      | none => none
+      | some ms => some (yamlText args.noTrailingNewline ms)
+    | _ => none
+  else
+    match w.manifest v with
+    | some s => some (if args.noTrailingNewline then s else s ++ "\n")
+    | none => none
+
+/-- The `-m` loop: files written so far, and the path list (`none` after a failure). -/
+def multiLoop (args : Args) (w : World) (dir : String) :
+    List (String × Value) → List (String × String) → String → List (String × String) × Option String
+  | [], files, pathList => (files, some pathList)
+  | (name, v) :: rest, files, pathList =>
+    match valueToRepr args w v with
+    | none => (files, none)
+    | some repr =>
+      let path := pathJoin dir name
+      if w.writeFile path repr then
+        multiLoop args w dir rest (files ++ [(path, repr)]) (pathList ++ path ++ "\n")
+      else (files, none)
+
+/-- `let output = if let Some(dir) = args.multi { .. } else { .. }` -/
+def render (args : Args) (w : World) (v : Value) : List (String × String) × Option String :=
+  match args.multi with
+  | some dir =>
+    match v with
+    | .obj fields => multiLoop args w dir fields [] ""
+    | _ => ([], none)
+  | none => ([], valueToRepr args w v)
+
+/-- Reading / loading the input. -/
+def inputThunk (args : Args) (w : World) : Option ThunkSrc :=
+  match args.input with
+  | .exec code => if w.loadVirt "<cmdline>" code then some (.virt "<cmdline>" code) else none
+  | .stdin =>
+    match w.stdin with
+    | none => none
+    | some data => if w.loadVirt "<stdin>" data then some (.virt "<stdin>" data) else none
+  | .file path => if w.loadReal path then some (.real path) else none
+
+/-- `main_inner` (after clap), with `main`'s mapping to the exit status. -/
+def mainInner (args : Args) (w : World) : Result :=
+  if args.string && args.yamlStream then
+    { exit := 2, stdout := "", stderrNonEmpty := true, files := [], outFile := none }
+  else
+    match inputThunk args w with
+    | none => fail []
+    | some root =>
+      match extLoop (extItems args w) [] with
+      | none => fail []
+      | some ext =>
+        match tlaLoop (tlaItems args w) [] false with
+        | none => fail []
+        | some (tla, dupMsg) =>
+          match w.evalRoot root ext with
+          | none => fail []
+          | some rootValue =>
+            match callStage w ext tla rootValue with
+            | none => fail []
+            | some value =>
+              match render args w value with
+              | (files, none) => fail files
+              | (files, some output) =>
+                match args.output with
+                | some path =>
+                  if w.writeFile path output then
+                    { exit := 0, stdout := "", stderrNonEmpty := dupMsg, files := files,
+                      outFile := some (path, output) }
+                  else fail files
+                | none =>
+                  if w.stdoutWrite output && w.stdoutFlush then
+                    { exit := 0, stdout := output, stderrNonEmpty := dupMsg, files := files, outFile := none }
+                  else fail files
+
+/-! ## Driver
+
+  The driver instantiates `World` from a small expression language so that the
+  external-variable environment and the top-level arguments built by `mainInner`
+  are observable: the text of every piece of code is mapped to an `Expr`.
+-/
+
+inductive Expr where
+  | atom (n : Nat)
+  | str (s : String)
+  | arr (items : List Expr)
+  /-- `(name, hidden, value)` in field order -/
+  | obj (fields : List (String × Bool × Expr))
+  | func (id : Nat) (params : List (String × Option Expr)) (body : Expr)
+  /-- `std.extVar(name)` -/
+  | ext (name : String)
+  /-- a parameter of the enclosing top-level function -/
+  | param (name : String)
+  /-- `error "..."` -/
+  | err
+deriving Repr
+
+structure Tables where
+  /-- code text ↦ its meaning -/
+  code : List (String × Expr) := []
+  /-- texts on which `load_source` fails -/
+  badCode : List String := []
+  /-- real files holding code: path ↦ text -/
+  realFiles : List (String × String) := []
+  funcs : List (Nat × List (String × Option Expr) × Expr) := []
+  manifest : List (String × String) := []
+  env : List (String × EnvRes) := []
+  strFiles : List (String × FileRes) := []
+  writeFail : List String := []
+  stdin : Option String := some ""
+  /-- stdout rejects every non-empty write -/
+  full : Bool := false
+
+def lookupS {α : Type} (l : List (String × α)) (k : String) : Option α :=
+  match l with
+  | [] => none
+  | (k', v) :: rest => if k' = k then some v else lookupS rest k
+
+def lookupN {α : Type} (l : List (Nat × α)) (k : Nat) : Option α :=
+  match l with
+  | [] => none
+  | (k', v) :: rest => if k' = k then some v else lookupN rest k
+
+/-- Parameter environment: a top-level argument or the default expression. -/
+inductive PBind where
+  | arg (t : ThunkSrc)
+  | dflt (e : Expr)
+
+def mapMOpt {α β : Type} (f : α → Option β) : List α → Option (List β)
+  | [] => some []
+  | a :: rest =>
+    match f a with
+    | none => none
+    | some b =>
+      match mapMOpt f rest with
+      | none => none
+      | some bs => some (b :: bs)
+
+/-- Deep evaluation (what `eval_value` / `eval_call` deliver). -/
+def evalE (tb : Tables) (ext : List (String × ThunkSrc)) : Nat → List (String × PBind) → Expr → Option Value
+  | 0, _, _ => none
+  | fuel + 1, penv, e =>
+    let evalThunk := fun (t : ThunkSrc) =>
+      match t with
+      | .str s => some (Value.str s)
+      | .virt _ code =>
+        match lookupS tb.code code with
+        | some e' => evalE tb ext fuel [] e'
+        | none => none
+      | .real path =>
+        match lookupS tb.realFiles path with
+        | some code =>
+          match lookupS tb.code code with
+          | some e' => evalE tb ext fuel [] e'
+          | none => none
+        | none => none
+    match e with
+    | .atom n => some (.atom n)
+    | .str s => some (.str s)
+    | .arr items =>
+      match mapMOpt (evalE tb ext fuel penv) items with
+      | some vs => some (.arr vs)
+      | none => none
+    | .obj fields =>
+      match mapMOpt (fun (f : String × Bool × Expr) =>
+          match evalE tb ext fuel penv f.2.2 with
+          | some v => some (f.1, v)
+          | none => none) (fields.filter (fun f => !f.2.1)) with
+      | some fs => some (.obj fs)
+      | none => none
+    | .func id params _ => some (.func id (params.map (fun p => (p.1, p.2.isSome))))
+    | .ext name =>
+      match lookupS ext name with
+      | some t => evalThunk t
+      | none => none
+    | .param name =>
+      match lookupS penv name with
+      | some (.arg t) => evalThunk t
+      | some (.dflt d) => evalE tb ext fuel penv d
+      | none => none
+    | .err => none
+
+def FUEL : Nat := 64
+
+def Tables.loadOk (tb : Tables) (code : String) : Bool := !tb.badCode.contains code
+
+/-- Canonical text of a value (key of the manifest table). -/
+def showValue : Value → String
+  | .atom n => "a" ++ toString n
+  | .str s => "s" ++ Rsj.Import.hexStr s
+  | .arr items => "[" ++ showValues items ++ "]"
+  | .obj fields => "{" ++ showFields fields ++ "}"
+  | .func id _ => "f" ++ toString id
+where
+  showValues : List Value → String
+    | [] => ""
+    | v :: rest => showValue v ++ "," ++ showValues rest
+  showFields : List (String × Value) → String
+    | [] => ""
+    | (n, v) :: rest => Rsj.Import.hexStr n ++ ":" ++ showValue v ++ "," ++ showFields rest
+
+def Tables.world (tb : Tables) : World :=
+  { stdin := tb.stdin
+    env := fun v => (lookupS tb.env v).getD .undefined
+    readStrFile := fun p => (lookupS tb.strFiles p).getD .readFail
+    loadVirt := fun _ code => tb.loadOk code
+    loadReal := fun p =>
+      match lookupS tb.realFiles p with
+      | some code => tb.loadOk code
+      | none => false
+    evalRoot := fun root ext =>
+      match root with
+      | .str s => some (.str s)
+      | .virt _ code =>
+        match lookupS tb.code code with
+        | some e => evalE tb ext FUEL [] e
+        | none => none
+      | .real p =>
+        match lookupS tb.realFiles p with
+        | some code =>
+          match lookupS tb.code code with
+          | some e => evalE tb ext FUEL [] e
+          | none => none
+        | none => none
+    evalBody := fun f ext tla =>
+      match f with
+      | .func id _ =>
+        match lookupN tb.funcs id with
+        | some (params, body) =>
+          let penv := params.filterMap (fun p =>
+            match lookupS tla p.1, p.2 with
+            | some t, _ => some (p.1, PBind.arg t)
+            | none, some d => some (p.1, PBind.dflt d)
+            | none, none => none)
+          evalE tb ext FUEL penv body
+        | none => none
+      | _ => none
+    manifest := fun v => lookupS tb.manifest (showValue v)
+    writeFile := fun p _ => !tb.writeFail.contains p
+    stdoutWrite := fun s => !(tb.full && !s.isEmpty)
+    stdoutFlush := true }
+
+/-! ### Request parsing -/
+
+open Rsj.Import (unhexStr hexStr)
+
+/-- Expression tokens (comma separated):
+    `a<n>` `s<hex>` `[<k>` e… `{<k>` (`v<hex>`|`h<hex>`) e … `f<id>/<k>` (`p<hex>` | `d<hex>` e)… body
+    `x<hex>` (extVar) `r<hex>` (parameter) `!` (error). -/
+def parseE : Nat → List String → Option (Expr × List String)
+  | 0, _ => none
+  | _ + 1, [] => none
+  | fuel + 1, tok :: rest =>
+    let parseMany := fun (k : Nat) (toks : List String) =>
+      (List.range k).foldlM (fun (acc : List Expr × List String) _ =>
+        match parseE fuel acc.2 with
+        | some (e, r) => some (acc.1 ++ [e], r)
+        | none => none) ([], toks)
+    match tok.toList with
+    | ['!'] => some (.err, rest)
+    | 'a' :: n => do pure (.atom (← (String.ofList n).toNat?), rest)
+    | 's' :: h => do pure (.str (← unhexStr (String.ofList h)), rest)
+    | 'x' :: h => do pure (.ext (← unhexStr (String.ofList h)), rest)
+    | 'r' :: h => do pure (.param (← unhexStr (String.ofList h)), rest)
+    | '[' :: n => do
+      let k ← (String.ofList n).toNat?
+      let (es, r) ← parseMany k rest
+      pure (.arr es, r)
+    | '{' :: n => do
+      let k ← (String.ofList n).toNat?
+      let (fs, r) ← (List.range k).foldlM (fun (acc : List (String × Bool × Expr) × List String) _ =>
+        match acc.2 with
+        | nameTok :: r1 =>
+          match nameTok.toList with
+          | c :: h =>
+            match unhexStr (String.ofList h), parseE fuel r1 with
+            | some name, some (e, r2) =>
+              if c = 'v' then some (acc.1 ++ [(name, false, e)], r2)
+              else if c = 'h' then some (acc.1 ++ [(name, true, e)], r2)
+              else none
+            | _, _ => none
+          | [] => none
+        | [] => none) ([], rest)
+      pure (.obj fs, r)
+    | 'f' :: spec => do
+      match (String.ofList spec).splitOn "/" with
+      | [ids, ks] =>
+        let id ← ids.toNat?
+        let k ← ks.toNat?
+        let (ps, r) ← (List.range k).foldlM (fun (acc : List (String × Option Expr) × List String) _ =>
+          match acc.2 with
+          | ptok :: r1 =>
+            match ptok.toList with
+            | 'p' :: h =>
+              match unhexStr (String.ofList h) with
+              | some name => some (acc.1 ++ [(name, none)], r1)
+              | none => none
+            | 'd' :: h =>
+              match unhexStr (String.ofList h), parseE fuel r1 with
+              | some name, some (e, r2) => some (acc.1 ++ [(name, some e)], r2)
+              | _, _ => none
+            | _ => none
+          | [] => none) ([], rest)
+        let (body, r') ← parseE fuel r
+        pure (.func id ps body, r')
+      | _ => none
+    | _ => none
+
+def parseExpr (s : String) : Option Expr :=
+  match parseE 64 (s.splitOn ",") with
+  | some (e, []) => some e
+  | _ => none
+
+/-- All function literals of an expression (for `Tables.funcs`). -/
+def collectFuncs : Nat → Expr → List (Nat × List (String × Option Expr) × Expr)
+  | 0, _ => []
+  | fuel + 1, e =>
+    match e with
+    | .arr items => items.flatMap (collectFuncs fuel)
+    | .obj fields => fields.flatMap (fun f => collectFuncs fuel f.2.2)
+    | .func id ps body =>
+      (id, ps, body) :: (ps.flatMap (fun p => match p.2 with | some d => collectFuncs fuel d | none => [])
+        ++ collectFuncs fuel body)
+    | _ => []
+
+structure Req where
+  args : Args := { input := .stdin }
+  usage : Bool := false
+  tb : Tables := {}
+
+def kv (tok : String) : Option (String × String) :=
+  match tok.splitOn "=" with
+  | [k, v] => some (k, v)
+  | [k] => some (k, "")
+  | _ => none
+
+def pair (v : String) : Option (String × String) :=
+  match v.splitOn ":" with
+  | [a, b] => some (a, b)
+  | _ => none
+
+/-- Request tokens, see checks/c12.py (`model_line`). -/
+def parseTok (r : Req) (tok : String) : Option Req := do
+  let (k, v) ← kv tok
+  let a := r.args
+  let tb := r.tb
+  match k with
+  | "in" =>
+    match v.splitOn ":" with
+    | ["e", h] => pure { r with args := { a with input := .exec (← unhexStr h) } }
+    | ["s"] => pure { r with args := { a with input := .stdin } }
+    | ["f", h] => pure { r with args := { a with input := .file (← unhexStr h) } }
+    | _ => none
+  | "S" => pure { r with args := { a with string := true } }
+  | "y" => pure { r with args := { a with yamlStream := true } }
+  | "ntn" => pure { r with args := { a with noTrailingNewline := true } }
+  | "m" => pure { r with args := { a with multi := some (← unhexStr v) } }
+  | "o" => pure { r with args := { a with output := some (← unhexStr v) } }
+  | "xs" => pure { r with args := { a with extStr := a.extStr ++ [parseVarOptVal (← unhexStr v)] } }
+  | "xc" => pure { r with args := { a with extCode := a.extCode ++ [parseVarOptVal (← unhexStr v)] } }
+  | "ts" => pure { r with args := { a with tlaStr := a.tlaStr ++ [parseVarOptVal (← unhexStr v)] } }
+  | "tc" => pure { r with args := { a with tlaCode := a.tlaCode ++ [parseVarOptVal (← unhexStr v)] } }
+  | "xsf" =>
+    match parseVarFile (← unhexStr v) with
+    | some f => pure { r with args := { a with extStrFile := a.extStrFile ++ [f] } }
+    | none => pure { r with usage := true }
+  | "xcf" =>
+    match parseVarFile (← unhexStr v) with
+    | some f => pure { r with args := { a with extCodeFile := a.extCodeFile ++ [f] } }
+    | none => pure { r with usage := true }
+  | "tsf" =>
+    match parseVarFile (← unhexStr v) with
+    | some f => pure { r with args := { a with tlaStrFile := a.tlaStrFile ++ [f] } }
+    | none => pure { r with usage := true }
+  | "tcf" =>
+    match parseVarFile (← unhexStr v) with
+    | some f => pure { r with args := { a with tlaCodeFile := a.tlaCodeFile ++ [f] } }
+    | none => pure { r with usage := true }
+  | "stdin" =>
+    if v = "!" then pure { r with tb := { tb with stdin := none } }
+    else pure { r with tb := { tb with stdin := some (← unhexStr v) } }
+  | "env" => do
+    let (n, x) ← pair v
+    pure { r with tb := { tb with env := tb.env ++ [(← unhexStr n, .val (← unhexStr x))] } }
+  | "envbad" => pure { r with tb := { tb with env := tb.env ++ [(← unhexStr v, .notUnicode)] } }
+  | "sfile" => do
+    let (p, x) ← pair v
+    pure { r with tb := { tb with strFiles := tb.strFiles ++ [(← unhexStr p, .ok (← unhexStr x))] } }
+  | "sfilebad" => pure { r with tb := { tb with strFiles := tb.strFiles ++ [(← unhexStr v, .notUtf8)] } }
+  | "rfile" => do
+    let (p, x) ← pair v
+    pure { r with tb := { tb with realFiles := tb.realFiles ++ [(← unhexStr p, ← unhexStr x)] } }
+  | "badcode" => pure { r with tb := { tb with badCode := tb.badCode ++ [← unhexStr v] } }
+  | "code" => do
+    let (c, x) ← pair v
+    let e ← parseExpr x
+    pure { r with tb := { tb with code := tb.code ++ [(← unhexStr c, e)],
+                                  funcs := tb.funcs ++ collectFuncs 64 e } }
+  | "mf" => do
+    let (x, t) ← pair v
+    let e ← parseExpr x
+    let val ← evalE {} [] FUEL [] e
+    pure { r with tb := { tb with manifest := tb.manifest ++ [(showValue val, ← unhexStr t)] } }
+  | "wfail" => pure { r with tb := { tb with writeFail := tb.writeFail ++ [← unhexStr v] } }
+  | "full" => pure { r with tb := { tb with full := true } }
+  | _ => none
+
+def showFiles (fs : List (String × String)) : String :=
+  "[" ++ ",".intercalate (fs.map (fun f => hexStr f.1 ++ ":" ++ hexStr f.2)) ++ "]"
+
+def showResult (r : Result) : String :=
+  "exit=" ++ toString r.exit ++ " out=" ++ hexStr r.stdout ++ " err=" ++ (if r.stderrNonEmpty then "1" else "0")
+    ++ " files=" ++ showFiles r.files ++ " ofile=" ++
+    (match r.outFile with
+     | some (p, c) => hexStr p ++ ":" ++ hexStr c
+     | none => "none")
+
+/-- `cli run <tok>...` : the whole tool; `cli optval <hex>` / `cli varfile <hex>` : the argument parsers. -/
+def handle (args : List String) : Option String :=
+  match args with
+  | ["optval", h] => do
+    let p := parseVarOptVal (← unhexStr h)
+    pure (hexStr p.var ++ " " ++ (match p.val with | some v => "some:" ++ hexStr v | none => "none"))
+  | ["varfile", h] => do
+    match parseVarFile (← unhexStr h) with
+    | some f => pure (hexStr f.var ++ " " ++ hexStr f.file)
+    | none => pure "usage"
+  | "run" :: toks => do
+    let r ← toks.foldlM parseTok {}
+    if r.usage then
+      pure (showResult { exit := 2, stdout := "", stderrNonEmpty := true, files := [], outFile := none })
+    else pure (showResult (mainInner r.args r.tb.world))
+  | _ => none
 
 end Rsj.Cli
